@@ -10,6 +10,7 @@ mod gen_project;
 mod job;
 mod prng;
 mod sched;
+mod seams;
 mod shrink;
 mod simfs;
 mod worker;
@@ -86,6 +87,14 @@ fn main() {
             for x in h.join().unwrap() {
                 println!("{} :: {}", x.class, x.detail);
             }
+        }
+        "selftest" => {
+            let f = seams::selftest();
+            for x in &f {
+                println!("SELFTEST-FAIL {}", x);
+            }
+            println!("selftest: {} failures", f.len());
+            std::process::exit(if f.is_empty() { 0 } else { 2 });
         }
         "corpus" => {
             let ctx = make_ctx(&args);
